@@ -734,18 +734,20 @@ func (m *Mint) GetMeltQuoteState(ctx context.Context, quoteId string) (storage.M
 			m.logInfof("payment %v failed with error: %v. Setting melt quote '%v' to unpaid and removing proofs from pending",
 				meltQuote.PaymentHash, paymentStatus.PaymentFailureReason, meltQuote.Id)
 
-			meltQuote.State = nut05.Unpaid
-			err = m.db.UpdateMeltQuote(meltQuote.Id, "", meltQuote.State)
-			if err != nil {
-				errmsg := fmt.Sprintf("error updating melt quote state: %v", err)
-				return storage.MeltQuote{}, cashu.BuildCashuError(errmsg, cashu.DBErrCode)
-			}
+			// remove proofs from pending before marking the quote as unpaid. Otherwise a failure
+			// in between leaves them pending for a quote that is never checked again
 			_, Ys, err := m.pendingProofsForQuote(meltQuote.Id)
 			if err == nil {
 				err = m.db.RemovePendingProofs(Ys)
 			}
 			if err != nil {
 				errmsg := fmt.Sprintf("error removing pending proofs for quote: %v", err)
+				return storage.MeltQuote{}, cashu.BuildCashuError(errmsg, cashu.DBErrCode)
+			}
+			meltQuote.State = nut05.Unpaid
+			err = m.db.UpdateMeltQuote(meltQuote.Id, "", meltQuote.State)
+			if err != nil {
+				errmsg := fmt.Sprintf("error updating melt quote state: %v", err)
 				return storage.MeltQuote{}, cashu.BuildCashuError(errmsg, cashu.DBErrCode)
 			}
 		}
@@ -832,6 +834,11 @@ func (m *Mint) MeltTokens(ctx context.Context, meltTokensRequest nut05.PostMeltB
 	meltQuote.State = nut05.Pending
 	err = m.db.UpdateMeltQuote(meltQuote.Id, "", nut05.Pending)
 	if err != nil {
+		// no payment was attempted so release the proofs. If they were left as pending
+		// with the quote still unpaid, nothing would ever check on them again
+		if err := m.db.RemovePendingProofs(Ys); err != nil {
+			m.logErrorf("could not remove pending proofs for quote '%v': %v", meltQuote.Id, err)
+		}
 		errmsg := fmt.Sprintf("error updating melt quote state: %v", err)
 		return storage.MeltQuote{}, cashu.BuildCashuError(errmsg, cashu.DBErrCode)
 	}
@@ -901,15 +908,17 @@ func (m *Mint) MeltTokens(ctx context.Context, meltTokensRequest nut05.PostMeltB
 				m.logInfof("no outgoing payment found with hash: %v. Removing pending proofs and marking quote '%v' as unpaid",
 					meltQuote.PaymentHash, meltQuote.Id)
 
+				// remove proofs from pending before marking the quote as unpaid. Otherwise a failure
+				// in between leaves them pending for a quote that is never checked again
+				err = m.db.RemovePendingProofs(Ys)
+				if err != nil {
+					errmsg := fmt.Sprintf("error removing proofs from pending: %v", err)
+					return storage.MeltQuote{}, cashu.BuildCashuError(errmsg, cashu.DBErrCode)
+				}
 				meltQuote.State = nut05.Unpaid
 				err = m.db.UpdateMeltQuote(meltQuote.Id, "", meltQuote.State)
 				if err != nil {
 					errmsg := fmt.Sprintf("error updating melt quote state: %v", err)
-					return storage.MeltQuote{}, cashu.BuildCashuError(errmsg, cashu.DBErrCode)
-				}
-				err = m.db.RemovePendingProofs(Ys)
-				if err != nil {
-					errmsg := fmt.Sprintf("error removing proofs from pending: %v", err)
 					return storage.MeltQuote{}, cashu.BuildCashuError(errmsg, cashu.DBErrCode)
 				}
 				return meltQuote, nil
@@ -927,15 +936,17 @@ func (m *Mint) MeltTokens(ctx context.Context, meltTokensRequest nut05.PostMeltB
 				m.logInfof("payment failed with error: %v. Removing pending proofs and marking quote '%v' as unpaid",
 					paymentStatus.PaymentFailureReason, meltQuote.Id)
 
+				// remove proofs from pending before marking the quote as unpaid. Otherwise a failure
+				// in between leaves them pending for a quote that is never checked again
+				err = m.db.RemovePendingProofs(Ys)
+				if err != nil {
+					errmsg := fmt.Sprintf("error removing proofs from pending: %v", err)
+					return storage.MeltQuote{}, cashu.BuildCashuError(errmsg, cashu.DBErrCode)
+				}
 				meltQuote.State = nut05.Unpaid
 				err = m.db.UpdateMeltQuote(meltQuote.Id, "", meltQuote.State)
 				if err != nil {
 					errmsg := fmt.Sprintf("error updating melt quote state: %v", err)
-					return storage.MeltQuote{}, cashu.BuildCashuError(errmsg, cashu.DBErrCode)
-				}
-				err = m.db.RemovePendingProofs(Ys)
-				if err != nil {
-					errmsg := fmt.Sprintf("error removing proofs from pending: %v", err)
 					return storage.MeltQuote{}, cashu.BuildCashuError(errmsg, cashu.DBErrCode)
 				}
 				return meltQuote, nil
